@@ -13,6 +13,8 @@ REL_TOL = 1e-4
 def close(a, b, tol=REL_TOL):
     a = float(a)
     b = float(b)
+    if a == b:
+        return True  # includes equal infinities
     if math.isnan(a) or math.isnan(b):
         return False
     return abs(a - b) <= tol * max(1.0, abs(a), abs(b))
